@@ -416,6 +416,33 @@ class Oracle:
             bond = mol_after.GetBondBetweenAtoms(int(a["atom"]), int(b["atom"]) + off)
             P.check("C04", bond is not None and bond.GetBondType() == a["bond_type"] and int(a["bond_type"]) == int(b["bond_type"]),
                     f"new bond joins the two attachment atoms with the prescribed order ({rec['site']})")
+            # the atoms the bond joins are the atoms the descriptors are written on (token text read independently by RDKit)
+            okatom = True
+            for side, st, tok_, lo_ in (("other", b, rec["other_token"], 0), ("self", a, None, None)):
+                if side == "self":
+                    for r_, lo2, hi2 in rec["self_residues"]:
+                        if lo2 <= int(st["atom"]) < hi2:
+                            tok_, lo_ = r_.obj, lo2
+                if tok_ is None:
+                    okatom = False
+                    continue
+                ref_ = token_ref_cached(tok_)
+                k_ = int(st["num"]) - int(tok_.bond_descriptors[0].descriptor_num) if tok_.bond_descriptors else -1
+                if not (0 <= k_ < len(ref_["descriptors"])) or ref_["descriptors"][k_][0] is None:
+                    okatom = False
+                    continue
+                ra_, ro_ = ref_["descriptors"][k_]
+                if int(st["atom"]) - lo_ != ra_:
+                    okatom = False
+                    continue
+                src_mol = rec["mol_self_before"] if side == "self" else rec["mol_other_before"]
+                at = src_mol.GetAtomWithIdx(int(st["atom"]))
+                rat = ref_["with_dummies"].GetAtomWithIdx(ref_["real"][ra_])
+                nb_ref = sorted(n.GetAtomicNum() for n in rat.GetNeighbors() if n.GetAtomicNum() != 0)
+                nb_got = sorted(n.GetAtomicNum() for n in at.GetNeighbors() if lo_ <= n.GetIdx() < lo_ + len(ref_["real"]))
+                if at.GetAtomicNum() != rat.GetAtomicNum() or at.GetFormalCharge() != rat.GetFormalCharge() or nb_ref != nb_got:
+                    okatom = False
+            P.check("C04", okatom, f"the bond joins the atoms the descriptors are written on ({rec['site']})")
             P.check("C04", rec["natoms_after"] == rec["natoms_self"] + rec["natoms_other"]
                     and rec["nbonds_after"] == rec["nbonds_self"] + rec["nbonds_other"] + 1,
                     "exactly one bond and no atom is added by an attachment")
@@ -426,9 +453,11 @@ class Oracle:
             # the used descriptors were unused before: they sit on atoms that have a free valence position recorded
         # ---------------- C07: per block
         self._check_blocks(obs, skeleton)
+        if exc is not None and type(exc).__name__ in ("AtomValenceException", "AtomKekulizeException", "KekulizeException", "MolSanitizeException", "AtomSanitizeException"):
+            P.check("C05", False, "generated molecule passes sanitisation")
         if exc is not None or result is None:
             if skeleton.get("closed"):
-                P.check("C06", False, f"generation of a well-posed molecule raised {type(exc).__name__}")
+                P.check("C06", False, "generation of a well-posed molecule raised an exception")
             return
         # ---------------- final molecule
         res = result
